@@ -61,6 +61,11 @@ def run(case):
         out = {"iter": segs_of(tb, t), "support": segs_of(tb, sup),
                "support_iter": segs_of(tb, t.support_iter(c)),
                "duration": tb.u(t.duration()), "twice": segs_of(tb, sup.support(c))}
+        from pyannote.core import Timeline as _TL
+        s0 = t.support()
+        assert list(s0.support(c)) == list(_TL(list(s0)).support(c)) == list(t.support(c)), \
+            "support(collar) of a timeline returned by support() differs from support(collar) of the same segments"
+        assert list(sup.support()) == list(_TL(list(sup)).support())
         # a returned support is the caller's to edit: the next call still returns the support of the timeline
         from harness.tlutil import assert_fresh
         assert_fresh(tb, lambda: t.support(), "support()")
